@@ -137,6 +137,25 @@ def check(chk, repo, tier):
         "what is asked for. Does not decide the linear pull bound.")
 
 
+def method_closure(methods, name):
+    """the method and the private helpers it (transitively) calls on self"""
+    seen = []
+    work = [name]
+    while work:
+        m = work.pop()
+        if m not in methods or methods[m] in seen:
+            continue
+        seen.append(methods[m])
+        for n in ast.walk(methods[m]):
+            if isinstance(n, ast.Call) and isinstance(n.func, ast.Attribute) \
+                    and isinstance(n.func.value, ast.Name) \
+                    and n.func.value.id == "self" \
+                    and n.func.attr.startswith("_") \
+                    and not n.func.attr.startswith("__"):
+                work.append(n.func.attr)
+    return seen
+
+
 def lazylist_methods(chk, repo):
     mod = repo.mod("LazyList")
     cls = mod.cls("LazyList")
@@ -180,9 +199,13 @@ def lazylist_methods(chk, repo):
            "has_ind must pull at most ind - len(generated) + 1 items (one "
            "bounded for-loop over range(...)), never loop until exhaustion",
            F, hi.lineno, sample="for _ in range(ind - len(self.generated) + 1)")
-    # __getitem__: forcing only under negative position / negative stop / step
+    # __getitem__ (with the private helpers it delegates to): forcing only
+    # under negative position / negative stop / step
     gi = methods["__getitem__"]
-    for n in forcing_calls(gi):
+    closure = method_closure(methods, "__getitem__")
+    gi_nodes = [m for m in closure]
+    for owner, n in [(m, c) for m in gi_nodes for c in forcing_calls(m)]:
+        gi = owner
         guard = None
         child = n
         cur = getattr(n, "_parent", None)
@@ -207,7 +230,8 @@ def lazylist_methods(chk, repo):
         isinstance(n, ast.If) and ast.unparse(n.test).replace(" ", "") ==
         "stopisNone" and any(isinstance(m, ast.FunctionDef)
                              for m in ast.walk(n))
-        for n in ast.walk(gi))
+        for owner in closure for n in ast.walk(owner))
+    gi = methods["__getitem__"]
     chk.ob("C14.open-slice-lazy", "LazyList.__getitem__:stop is None",
            lazy_slice, "l[n:] must return a generator-backed lazy list", F,
            gi.lineno, sample="stop is None -> @lazylist generator")
